@@ -13,6 +13,8 @@ chk("C01", "exploration", "property-based testing (Hypothesis): generated handle
     "wait_for_event/wait_for_any_event futures (resolve exactly once, with the kwargs and event name of the first dispatch "
     "of one of their events that began after the registration) and post_async/post_relay_async futures (resolve exactly "
     "once, not before every handler of the event's subtree has run - observed synchronously at every handler start). "
+    "Handlers may be registered with a blocking facility and may return a _min_priority (what shots with block: true do): "
+    "the documented blocking rule decides which later handlers must, may or must not run. "
     "Search, not proof.",
     "Handlers never raise; <= 40 posts and <= 30 live registrations per case; queue events are C02's.",
     "DESIGN.md §4 C01, appendix A.1")
@@ -112,7 +114,9 @@ chk("C12", "exploration", "property-based testing (Hypothesis): generated sectio
     "(type, range, enum, device, container members, recursively through sub-configs), no unknown key was accepted, no "
     "provided key dropped and the spec is unchanged. Time strings: accepted values equal number x unit within 1 ms and the "
     "Unknown keys that are not strings (7:, 1.5:, true:, ~:) and NaN/inf for numeric validators are generated. "
-    "documented forms are accepted. Sub-check players: generated variable_player / event_player / score_queue_player "
+    "documented forms are accepted. Sub-check synthetic: one-key specs for parameterised validator types the shipped spec "
+    "does not use (int/float/num and their *_or_token forms with ranges, as single, list and dict values) are registered "
+    "the way modes and platforms register theirs and judged by the same predicate. Sub-check players: generated variable_player / event_player / score_queue_player "
     "entries (names with an illegal character at the start or after a legal start, optional {condition}, dict/list/string "
     "form) must be rejected or come back with names of letters, digits, dashes and underscores only, one entry per name, "
     "and legal entries must be accepted. Search, not proof.",
@@ -126,7 +130,8 @@ chk("C08", "exploration", "property-based testing (Hypothesis): generated coil l
     "over-limit parameter must raise and reach the driver with nothing; a software-timed pulse and a hold limited by "
     "Sub-check 'integration' boots four flippers, three autofire coils and a kickback with generated coil limits and device-level coil overwrites and checks every pulse/hold setting that reaches the platform as a hardware rule or driver call (enable events, software flips, button presses, ball search). "
     "At the end of an integration history, 3 s after every button and software flip was released and ball search had stopped, no coil may be enabled. "
-    "max_hold_duration must be followed by disable at their deadline whatever happens in between. Search, not proof.",
+    "max_hold_duration must be followed by disable at their deadline whatever happens in between - also when the enable "
+    "was postponed because the shared power supply was busy (another coil pulsed, enable(max_wait_ms=...)). Search, not proof.",
     "Virtual platform interface (hardware pulse limit 255 ms); max_pulse_power 0 and NaN not generated; serial platforms' encoders not covered.",
     "DESIGN.md §4 C08")
 chk("C02", "exploration", "property-based testing (Hypothesis): generated queue/relay/boolean handler programs vs. a log oracle with bounded liveness",
@@ -175,7 +180,8 @@ chk("C11", "exploration", "property-based testing (Hypothesis): generated multi-
     "Sub-check twin (metamorphic): every player - and player 1 of the next game - gets the same generated inputs at the same "
     "offset into their first ball (logic blocks, shots, shot group rotation, achievement group select/rotate/start, timers "
     "with timed pauses, one not running until started); all per-player records must then be equal, whatever the earlier "
-    "players did after their record was taken. Search, not proof.",
+    "players did after their record was taken. A restart_on_next_ball mode must run at a player's next ball iff it ran at "
+    "the end of their previous one (directed three-ball histories in which the player finishes it). Search, not proof.",
     "Faked ball hardware; timers only checked for isolation; restore sampled 100 ms after ball_started.",
     "DESIGN.md §4 C11")
 chk("C10", "exploration", "property-based testing (Hypothesis): generated enable/disable/flip/game histories vs. an invariant over the platform's rule table",
@@ -186,7 +192,8 @@ chk("C10", "exploration", "property-based testing (Hypothesis): generated enable
     "double install), the enabled flag must follow the last explicit request, and whenever no ball is in play (no game, "
     "Two flippers share one button and coil and are handed over by one event (never both enabled); requests are also generated while the autofire timeout protection has paused a device. "
     "In the lifecycle sub-check every pulse/enable reaching a flipper or autofire coil driver while no ball is in play is a violation (a scenario holds an EOS flipper up through the end of the ball, a tilt, service entry or the end of the game). "
-    "ball ended, tilt, service) no flipper/autofire rule is installed and no flipper coil is energised. Search, not proof.",
+    "ball ended, tilt, service) no flipper/autofire rule is installed and no flipper coil is energised (two flippers "
+    "have no cabinet button at all and are only flipped by events). Search, not proof.",
     "Rule table of the virtual platform; delayed-pulse autofire rules are not available on it.",
     "DESIGN.md §4 C10")
 chk("C09", "exploration", "property-based testing (Hypothesis): generated colour/fade/removal histories vs. a priority-stack model, on four light backends",
@@ -230,7 +237,8 @@ chk("C15", "fault_enumeration", "property-based testing (Hypothesis): generated 
     "The real DataManager writer thread runs under a cooperative baton (sleep, dirty-flag wait, deepcopy, open, each file "
     "write, close, os.replace are yield points) so the generator chooses the interleaving of save_all() calls, writer "
     "steps and shutdown, plus one injected OSError, one write failure that is no OSError (UnicodeEncodeError/ValueError from "
-    "the text layer half way through the temp file) or one simulated process death at a generated point of a save. "
+    "the text layer half way through the temp file) or one simulated process death at a generated point of a save; "
+    "another data manager of the process saves in between, also to paths no file interface exists for (its failure must not block ours). "
     "After a clean shutdown the file must parse to the last saved value; after a crash it must be absent or a complete "
     "saved version, never torn; a save made after a failed write must reach the disk and the writer must not wedge. "
     "Machine variables (generic and config-declared, YAML-lookalike strings, nested values, expiry on both sides of the "
